@@ -1,5 +1,6 @@
 import OrsoVerif.Model.RowCodec
 import OrsoVerif.Model.RowGlue
+import OrsoVerif.Model.RowObject
 import OrsoVerif.Lemmas.RowBytes
 import OrsoVerif.Lemmas.MsgPackRoundtrip
 import OrsoVerif.Lemmas.RowStream
@@ -73,14 +74,35 @@ theorem generated_as_bytes_eq_model (d : Bool) (ts : Nat) (payload : Bytes) :
     Gen.RowFns.as_bytes_frame d ts payload = encodeFrame ts payload := by
   unfold Gen.RowFns.as_bytes_frame encodeFrame
   rw [frameDecision_eq, frameBytes_eq]
-  simp only [Gen.Row.maxRecord, intToBytes, pow_consts.1, pow_consts.2.1]
-  by_cases h : payload.length > 16777216
-  · simp [h]
-  · by_cases h4 : payload.length ≥ 4294967296
+  -- the size test of the translation is the extracted operator on the extracted constant, whichever of `>` / `>=` and
+  -- whatever constant below 2^31 they are: *which* they are is stated by `as_bytes_accepts_iff_payload_le_limit`
+  have hsmall := cap_small
+  have hbig : ∀ {n : Nat}, ¬ overCap n → n < 4294967296 := fun {n} h => by
+    by_cases hb : n ≥ 2147483648
+    · exact absurd (overCap_of_big hb) h
     · omega
-    · by_cases h8 : ts ≥ 18446744073709551616
-      · simp [h, h4, h8, catBytes]
-      · simp [h, h4, h8, catBytes, header, toBytes, Gen.Row.bigEndian, Gen.Row.lenWidth, Gen.Row.tsWidth]
+  simp only [intToBytes, pow_consts.1, pow_consts.2.1]
+  rcases capOp_known with hop | hop
+  · first
+    | exact absurd hop (by decide)
+    | (have ho : overCap payload.length ↔ payload.length > Gen.Row.maxRecord := by unfold overCap; rw [hop]; simp
+       by_cases h : payload.length > Gen.Row.maxRecord
+       · rw [if_pos (ho.2 h)]; simp [h]
+       · rw [if_neg (fun hh => h (ho.1 hh))]
+         have h4 : ¬ (4294967296 ≤ payload.length) := by have := hbig (fun hh => h (ho.1 hh)); omega
+         by_cases h8 : ts ≥ 18446744073709551616
+         · simp [h, h4, h8, catBytes]
+         · simp [h, h4, h8, catBytes, header, toBytes, Gen.Row.bigEndian, Gen.Row.lenWidth, Gen.Row.tsWidth])
+  · first
+    | exact absurd hop (by decide)
+    | (have ho : overCap payload.length ↔ payload.length ≥ Gen.Row.maxRecord := by unfold overCap; rw [hop]; simp
+       by_cases h : payload.length ≥ Gen.Row.maxRecord
+       · rw [if_pos (ho.2 h)]; simp [h]
+       · rw [if_neg (fun hh => h (ho.1 hh))]
+         have h4 : ¬ (4294967296 ≤ payload.length) := by have := hbig (fun hh => h (ho.1 hh)); omega
+         by_cases h8 : ts ≥ 18446744073709551616
+         · simp [h, h4, h8, catBytes]
+         · simp [h, h4, h8, catBytes, header, toBytes, Gen.Row.bigEndian, Gen.Row.lenWidth, Gen.Row.tsWidth])
 
 /-- The translated functions on a concrete row: emitted, decoded back, torn and extended; the same record for a row
 object without and with a `__dict__`.  (Placed here: counted against the `generated_*` theorem above if it breaks.) -/
@@ -107,17 +129,19 @@ larger ones with the data error of orso/row.py:167 — it never emits a record i
 theorem encode_total (ts : Nat) (payload : Bytes) :
     (payload.length ≤ Gen.Row.maxRecord → ts < 2 ^ 64 → ∃ r, encodeFrame ts payload = .ok r) ∧
     (Gen.Row.maxRecord < payload.length → encodeFrame ts payload = .error .tooLarge) := by
+  -- here the operator and the constant are looked at: `>` and 16 MiB
+  have ho : ∀ n, overCap n ↔ n > 16777216 := fun n => by unfold overCap; simp [Gen.Row.capOp, Gen.Row.maxRecord]
   constructor
   · intro hl ht
     refine ⟨header payload.length ts ++ payload, ?_⟩
     simp only [Gen.Row.maxRecord] at hl
     rw [pow_consts.2.2] at ht
     unfold encodeFrame
-    rw [frameDecision_eq, frameBytes_eq, if_neg (by omega), if_neg (by omega)]
+    rw [frameDecision_eq, frameBytes_eq, if_neg (by rw [ho]; omega), if_neg (by omega)]
   · intro hl
     simp only [Gen.Row.maxRecord] at hl
     unfold encodeFrame
-    rw [frameDecision_eq, if_pos (by omega)]
+    rw [frameDecision_eq, if_pos (by rw [ho]; omega)]
 
 /-- **Every strict prefix is rejected with a data error** (a write torn at any byte `k`), for every
 record size and every payload codec; nothing is handed to the codec. -/
@@ -678,5 +702,301 @@ example : fromtimestamp (some (.int (-62135510400))) = some (.datetime (.int (-6
     fromtimestamp (some (.float 0x424d7ffa20c00000)) = none ∧
     fromtimestamp (some (.float 0x7ff8000000000000)) = none ∧ fromtimestamp (some (.float 0xfff0000000000000)) = none ∧
     fromtimestamp (some (.str "0")) = none ∧ fromtimestamp none = none := by decide
+
+/-! ## Round 5: the whole of `Row.as_bytes`, the size guard by its numbers, `Row.nbytes`, `Row.__new__`
+
+`Gen.RowFns.as_bytes` (the `packb` call included: which serialiser the name is bound to, `tuple(self)`, its flags),
+`Gen.RowFns.nbytes` and `Gen.RowFns.row_new` are translated statement by statement from orso/row.py on every run. -/
+
+/-- **`Row.as_bytes` as written, from its first statement on**: `packb(tuple(self), option=…, default=…)` with the
+serialiser orso/row.py imports under that name (ormsgpack's), its refusal (`TypeError`) ending the call, then the framing —
+computes `encodeRow` on the items of the row, for either kind of row object and whatever size `nbytes` has cached on
+it before.  (Another serialiser, another argument than `tuple(self)`, a read of the cached size: no longer checks.) -/
+theorem generated_as_bytes_whole_eq_model (d : Bool) (c : Option Nat) (ts : Nat) (row : List PyVal) :
+    Gen.RowFns.as_bytes d c ts row = encodeRow ts row := by
+  unfold encodeRow encodeWith packRow
+  have h := fun p => generated_as_bytes_eq_model d ts p
+  unfold Gen.RowFns.as_bytes_frame at h
+  unfold Gen.RowFns.as_bytes RowGlue.callPackb RowGlue.tupleOf
+  rw [if_pos rfl]
+  cases packb (.list row) with
+  | none => rfl
+  | some p => exact h p
+
+/-- The whole encoder on a concrete row of several value kinds, on an integer past 64 bits (refused by the codec), and
+with / without a cached size. -/
+example :
+    (Gen.RowFns.as_bytes true none 7 [.int 1, .str "a"]).toOption = some [16, 0, 0, 0, 0, 4, 0, 0, 0, 0, 0, 0, 0, 7, 0x92, 1, 0xa1, 0x61] ∧
+    (Gen.RowFns.as_bytes true (some 99) 7 [.int 1, .str "a"]).toOption = (Gen.RowFns.as_bytes false none 7 [.int 1, .str "a"]).toOption ∧
+    (match Gen.RowFns.as_bytes true none 7 [.int (2 ^ 64)] with | .error .codec => true | _ => false) = true ∧
+    (Gen.RowFns.as_bytes true none 7 [.int (2 ^ 64 - 1)]).toOption.map (·.length) = some 24 := by decide
+
+/-- **The size guard, by its numbers** (orso/row.py:46,173: `if record_size > MAXIMUM_RECORD_SIZE`, 16 MiB): with a 64-bit
+clock the translated `as_bytes` emits a record **iff the payload has at most 16·1024·1024 bytes** — exactly at the limit it
+does, one byte past it it does not — and what it refuses past the limit is the data error, whatever the clock.  The
+limit is written here as a number: changing the operator (`>=`) or the constant in the source breaks this theorem. -/
+theorem as_bytes_accepts_iff_payload_le_limit (d : Bool) (ts : Nat) (payload : Bytes) :
+    (ts < 2 ^ 64 → ((∃ r, Gen.RowFns.as_bytes_frame d ts payload = .ok r) ↔ payload.length ≤ 16 * 1024 * 1024)) ∧
+    (16 * 1024 * 1024 < payload.length → Gen.RowFns.as_bytes_frame d ts payload = .error .tooLarge) := by
+  rw [generated_as_bytes_eq_model]
+  -- the operator and the constant of the source are looked at here, and nowhere before: `>` and 16 MiB
+  have ho : ∀ n, overCap n ↔ n > 16 * 1024 * 1024 := fun n => by unfold overCap; simp [Gen.Row.capOp, Gen.Row.maxRecord]
+  unfold encodeFrame
+  rw [frameDecision_eq, frameBytes_eq]
+  refine ⟨fun hts => ?_, fun hl => by rw [if_pos ((ho _).2 hl)]⟩
+  rw [pow_consts.2.2] at hts
+  by_cases hl : payload.length ≤ 16 * 1024 * 1024
+  · rw [if_neg (by rw [ho]; omega), if_neg (by omega)]; simp [hl]
+  · rw [if_pos ((ho _).2 (by omega))]; simp [hl]
+
+/-- The same for a row: `as_bytes` emits a record iff the codec packs the row and the packed form is within the limit. -/
+theorem as_bytes_row_accepts_iff (d : Bool) (c : Option Nat) (ts : Nat) (row : List PyVal) (hts : ts < 2 ^ 64) :
+    (∃ r, Gen.RowFns.as_bytes d c ts row = .ok r) ↔ ∃ p, packRow row = some p ∧ p.length ≤ 16 * 1024 * 1024 := by
+  rw [generated_as_bytes_whole_eq_model]
+  unfold encodeRow encodeWith
+  cases hp : packRow row with
+  | none => simp
+  | some p =>
+    simp only [Option.some.injEq, exists_eq_left']
+    rw [← generated_as_bytes_eq_model d]
+    exact (as_bytes_accepts_iff_payload_le_limit d ts p).1 hts
+
+/-- **A record is its header and its payload**: `HEADER_SIZE` of orso/row.py (14) is the length of what `as_bytes` puts in
+front of the payload and the header size the decoder assumes; the payload follows unchanged. -/
+theorem emitted_is_header_then_payload (d : Bool) (ts : Nat) (payload r : Bytes)
+    (h : Gen.RowFns.as_bytes_frame d ts payload = .ok r) :
+    r.length = Gen.Row.headerSize + payload.length ∧ r.drop Gen.Row.headerSize = payload ∧
+      Gen.Row.headerSize = Gen.Row.decHeaderSize ∧ r.take 2 = Gen.Row.headerPrefix := by
+  rw [generated_as_bytes_eq_model] at h
+  obtain ⟨_, rfl⟩ := encodeFrame_ok h
+  have hh := header_length payload.length ts
+  refine ⟨by simp [hh, Gen.Row.headerSize], ?_, rfl, ?_⟩
+  · simp only [Gen.Row.headerSize]
+    rw [← hh, List.drop_left]
+  · rw [header_eq]; rfl
+
+/-! ### `Row.nbytes`: how a `DataFrame` reaches the guard, and one object used several times -/
+
+/-- `Row.nbytes` as written is "size the row once, keep the size on the object". -/
+theorem generated_nbytes_eq_model (d : Bool) (c : Option Nat) (a : Except EncErr Bytes) :
+    Gen.RowFns.nbytes d c a = RowGlue.nbytesModel d c a := by
+  unfold Gen.RowFns.nbytes RowGlue.nbytesModel RowGlue.bindSize RowGlue.storeCached RowGlue.lenOf
+  cases c <;> cases a <;> cases d <;> rfl
+
+/-- **`DataFrame.append` reaches the size guard through `Row.nbytes`** (dataframe.py:153 sizes the new row before it keeps
+it): on a fresh row object of a frame's class (it has a `__dict__`, nothing cached) whose items pack to `p`, `nbytes`
+answers `HEADER_SIZE + len(p)` and keeps it when `p` has at most 16·1024·1024 bytes, and ends in the data error of
+`as_bytes` — leaving nothing cached — when it has more.  Exactly at the limit the row is sized, one byte past it refused. -/
+theorem nbytes_reaches_the_guard (ts : Nat) (hts : ts < 2 ^ 64) (row : List PyVal) (p : Bytes) (hp : packRow row = some p) :
+    Gen.RowFns.nbytes true none (Gen.RowFns.as_bytes true none ts row) =
+      if p.length ≤ 16 * 1024 * 1024 then (.ok (some (Gen.Row.headerSize + p.length)), some (Gen.Row.headerSize + p.length))
+      else (.error .tooLarge, none) := by
+  rw [generated_nbytes_eq_model, generated_as_bytes_whole_eq_model]
+  unfold encodeRow encodeWith
+  rw [hp]
+  simp only []
+  have hg := as_bytes_accepts_iff_payload_le_limit true ts p
+  rw [generated_as_bytes_eq_model] at hg
+  by_cases hl : p.length ≤ 16 * 1024 * 1024
+  · rw [if_pos hl]
+    obtain ⟨r, hr⟩ := ((hg.1 hts).2 hl)
+    have hlen := (emitted_is_header_then_payload true ts p r (by rw [generated_as_bytes_eq_model]; exact hr)).1
+    rw [hr]
+    simp [RowGlue.nbytesModel, RowGlue.bindSize, RowGlue.lenOf, RowGlue.storeCached, Except.map, hlen]
+  · rw [if_neg hl, hg.2 (by omega)]
+    rfl
+
+/-- What `as_bytes` answers for a row does not depend on the 64-bit clock, except for the clock bytes: its size. -/
+theorem encodeRow_size (ts : Nat) (hts : ts < 2 ^ 64) (row : List PyVal) :
+    (encodeRow ts row).map List.length = RowObject.sizeOf row := by
+  unfold RowObject.sizeOf encodeRow encodeWith
+  cases hp : packRow row with
+  | none => rfl
+  | some p =>
+    simp only []
+    have hg := as_bytes_accepts_iff_payload_le_limit true ts p
+    rw [generated_as_bytes_eq_model] at hg
+    have hm : Gen.Row.maxRecord = 16777216 := rfl
+    by_cases hl : p.length ≤ 16 * 1024 * 1024
+    · obtain ⟨r, hr⟩ := ((hg.1 hts).2 hl)
+      have hlen := (emitted_is_header_then_payload true ts p r (by rw [generated_as_bytes_eq_model]; exact hr)).1
+      rw [hr, if_neg (by omega)]
+      simp [Except.map, hlen]
+    · rw [hg.2 (by omega), if_pos (by omega)]
+      rfl
+
+/-- **One row object used any number of times, in any order** (`as_bytes`, `nbytes`, `as_bytes` again, …; 64-bit clocks):
+every `as_bytes` answers exactly what it answers on a fresh object — the record of the row at that call's clock, or the
+same refusal — and every `nbytes` answers the size of that record (`AttributeError` on an instance of `Row` itself, which
+cannot keep it).  No earlier call on the object changes a later record ("every record the encoder emits": also the
+second and the third one of the same object, also after a `DataFrame` sized the row). -/
+theorem object_history_irrelevant (d : Bool) (row : List PyVal) (ops : List RowObject.Op)
+    (hts : ∀ op ∈ ops, match op with | .asBytes ts => ts < 2 ^ 64 | .nbytes ts => ts < 2 ^ 64)
+    (c : Option Nat) (hc : c = none ∨ (d = true ∧ ∃ n, c = some n ∧ RowObject.sizeOf row = .ok n)) :
+    RowObject.run d row c ops = ops.map (fun op => match op with
+      | .asBytes ts => RowObject.Res.record (encodeRow ts row)
+      | .nbytes _ => RowObject.Res.size (RowObject.sizeSpec d row)) := by
+  induction ops generalizing c with
+  | nil => rfl
+  | cons op ops ih =>
+    have hrest : ∀ op' ∈ ops, match op' with | .asBytes ts => ts < 2 ^ 64 | .nbytes ts => ts < 2 ^ 64 :=
+      fun op' h' => hts op' (by simp [h'])
+    cases op with
+    | asBytes ts =>
+      simp only [RowObject.run, RowObject.step, List.map_cons, generated_as_bytes_whole_eq_model]
+      rw [ih hrest c hc]
+    | nbytes ts =>
+      have h1 : ts < 2 ^ 64 := hts (.nbytes ts) (by simp)
+      have hsz := encodeRow_size ts h1 row
+      simp only [RowObject.run, RowObject.step, List.map_cons, generated_as_bytes_whole_eq_model, generated_nbytes_eq_model]
+      rcases hc with rfl | ⟨rfl, n, rfl, hn⟩
+      · -- nothing cached yet: the row is sized now
+        cases he : encodeRow ts row with
+        | error e =>
+          rw [he] at hsz
+          have hs : RowObject.sizeOf row = .error e := by rw [← hsz]; rfl
+          have : RowGlue.nbytesModel d none (Except.error e : Except EncErr Bytes) = (.error e, none) := rfl
+          rw [this, ih hrest none (.inl rfl)]
+          simp [RowObject.sizeSpec, hs]
+        | ok r =>
+          rw [he] at hsz
+          have hs : RowObject.sizeOf row = .ok r.length := by rw [← hsz]; rfl
+          cases d with
+          | false =>
+            have : RowGlue.nbytesModel false none (Except.ok r : Except EncErr Bytes) = (.error .attribute, none) := rfl
+            rw [this, ih hrest none (.inl rfl)]
+            simp [RowObject.sizeSpec, hs]
+          | true =>
+            have : RowGlue.nbytesModel true none (Except.ok r : Except EncErr Bytes) = (.ok (some r.length), some r.length) := rfl
+            rw [this, ih hrest (some r.length) (.inr ⟨rfl, r.length, rfl, hs⟩)]
+            simp [RowObject.sizeSpec, hs]
+      · -- sized before: the kept size is answered, `as_bytes` is not evaluated
+        have : RowGlue.nbytesModel true (some n) (encodeRow ts row) = (.ok (some n), some n) := rfl
+        rw [this, ih hrest (some n) (.inr ⟨rfl, n, rfl, hn⟩)]
+        simp [RowObject.sizeSpec, hn]
+
+/-- Non-vacuity: a frame row sized, serialised, sized again, serialised again; the same on an instance of `Row` itself. -/
+example :
+    (RowObject.run true [.int 1] none [.nbytes 5, .asBytes 6, .nbytes 7, .asBytes 8]).map (fun r => match r with
+        | .record (.ok b) => b.length + b.getLast!.toNat * 1000 | .size (.ok (some n)) => n | _ => 0) = [16, 1016, 16, 1016] ∧
+    (RowObject.run false [.int 1] none [.nbytes 5, .asBytes 6]).map (fun r => match r with
+        | .record (.ok b) => b.length | .size (.error .attribute) => 77 | _ => 0) = [77, 16] := by decide
+
+/-! ### Rows with reserved items: what exactly happens to the form the statement excludes -/
+
+/-- **Round trip for every row, reserved items included**: whatever `as_bytes` emits for *any* row decodes to the row
+with each reserved item `["__datetime__", x]` replaced by the `datetime` of `x` — and is refused with a payload error
+(not a data error, not another row) precisely when some reserved item carries no number inside the range of
+`datetime.fromtimestamp`; every other item comes back value for value and in order.  `row_roundtrip` is the case
+where `post` is the identity; this is why exactly the two-element form is excluded, and nothing else. -/
+theorem row_roundtrip_general (ts : Nat) (row : List PyVal) (r : Bytes) (h : encodeRow ts row = .ok r) :
+    decodeRow r = match row.mapM post with
+      | some items => .ok items
+      | none => .error .payloadError := by
+  unfold encodeRow encodeWith at h
+  cases hp : packRow row with
+  | none => rw [hp] at h; cases h
+  | some p =>
+    rw [hp] at h
+    simp only [] at h
+    unfold packRow packb at hp
+    split at hp
+    · rename_i hc
+      injection hp with hp
+      subst hp
+      simp only [Bool.and_eq_true] at hc
+      have hc2 : cdepth (.list row) ≤ 255 := of_decide_eq_true hc.2
+      unfold decodeRow
+      rw [decodeWith_ok _ (check_encode ts _ r h)]
+      have hu : unpackb (pack (.list row)) = some (.list row) := by
+        unfold unpackb
+        have := unpack_pack (.list row) unpackFuel [] hc.1 (by simp only [unpackFuel]; omega)
+        rw [List.append_nil] at this
+        rw [this]
+      unfold unpackRow
+      rw [hu]
+      simp only []
+      cases row.mapM post <;> rfl
+    · cases hp
+
+/-- A reserved item whose second element is a number in range becomes a `datetime`; anything else refuses the row. -/
+example :
+    (encodeRow 7 [.int 1, .list [.str "__datetime__", .float 0x41d9000000000000]]).toOption.bind (fun r => (decodeRow r).toOption)
+      = some [.val (.int 1), .datetime (.float 0x41d9000000000000)] ∧
+    (encodeRow 7 [.list [.str "__datetime__", .str "x"]]).toOption.map (fun r => (decodeRow r).toOption) = some none ∧
+    (encodeRow 7 [.list [.str "__datetime__", .int 253402300800]]).toOption.map (fun r => (decodeRow r).toOption) = some none := by decide
+
+/-! ### `Row.__new__`: the object `as_bytes` runs on, from a tuple and from a dictionary -/
+
+/-- `Row.__new__` as written: a tuple is kept; a dictionary (a subclass instance is copied into an exact one first) is
+laid out by `extract_dict_columns` over the fields of the class. -/
+theorem generated_row_new_eq_model (fields : Option (List String)) (data : RowGlue.NewArg) :
+    Gen.RowFns.row_new fields data = RowGlue.rowNewModel fields data := by
+  unfold Gen.RowFns.row_new RowGlue.rowNewModel
+  cases data with
+  | tuple items => rfl
+  | dict e es => cases e <;> rfl
+
+/-- **`cls(tuple)` keeps the items, in order** — what `Row.from_bytes` does with the decoder's tuple and what every
+`R(values)` of the correspondence does: the row object `as_bytes` runs on holds exactly the values given. -/
+theorem row_new_tuple (fields : Option (List String)) (items : List PyVal) :
+    Gen.RowFns.row_new fields (.tuple items) = .ok items := by
+  rw [generated_row_new_eq_model]; rfl
+
+/-- **`cls(dict)` lays the values out by the fields of the class**: field by field, in field order, `None` for a field the
+dictionary lacks, entries that are no field dropped — for an exact dictionary and for an instance of a subclass alike.
+On the class `Row` itself (`_fields` is `None`) it is a `TypeError`. -/
+theorem row_new_dict (e : Bool) (fs : List String) (es : List (String × PyVal)) :
+    Gen.RowFns.row_new (some fs) (.dict e es) = .ok (fs.map (fun f => (RowGlue.dictGet es f).getD .none)) ∧
+    Gen.RowFns.row_new none (.dict e es) = .error "TypeError" := by
+  rw [generated_row_new_eq_model, generated_row_new_eq_model]
+  exact ⟨rfl, rfl⟩
+
+/-- Looking a field up in the dictionary `{f₁: v₁, …}` made of distinct fields and as many values gives its value. -/
+theorem dict_of_fields (fs : List String) (vs : List PyVal) (hn : fs.Nodup) (hl : fs.length = vs.length) :
+    fs.map (fun f => (RowGlue.dictGet (fs.zip vs) f).getD .none) = vs := by
+  induction fs generalizing vs with
+  | nil => cases vs with
+    | nil => rfl
+    | cons _ _ => simp at hl
+  | cons f fs ih =>
+    cases vs with
+    | nil => simp at hl
+    | cons v vs =>
+      have hn' := List.nodup_cons.mp hn
+      simp only [List.zip_cons_cons, List.map_cons]
+      congr 1
+      · simp [RowGlue.dictGet, List.find?]
+      · refine Eq.trans ?_ (ih vs hn'.2 (by simpa using hl))
+        apply List.map_congr_left
+        intro g hg
+        have : (f == g) = false := by
+          simp only [beq_eq_false_iff_ne, ne_eq]
+          rintro rfl; exact hn'.1 hg
+        simp only [RowGlue.dictGet, List.find?, this]
+
+/-- **Round trip from a dictionary** (the dict path of `Row.__new__`, what `DataFrame.append` feeds a row class): a row
+built from `{field: value}` over the distinct fields of its class, serialised by the translated `as_bytes` and read back
+by the translated `Row.from_bytes`, comes back as the values in field order — whatever order the dictionary lists them in
+is irrelevant only through `dictGet`; stated here for the dictionary in field order. -/
+theorem dict_row_roundtrip (e : Bool) (fs : List String) (vs : List PyVal) (hn : fs.Nodup) (hl : fs.length = vs.length)
+    (d : Bool) (c : Option Nat) (ts : Nat) (r : Bytes) (hr : NoReserved vs) :
+    ∃ items, Gen.RowFns.row_new (some fs) (.dict e (fs.zip vs)) = .ok items ∧ items = vs ∧
+      (Gen.RowFns.as_bytes d c ts items = .ok r → Gen.RowFns.from_bytes r = .row (vs.map Item.val)) := by
+  refine ⟨vs, ?_, rfl, fun h => ?_⟩
+  · rw [(row_new_dict e fs (fs.zip vs)).1, dict_of_fields fs vs hn hl]
+  · rw [generated_as_bytes_whole_eq_model] at h
+    rw [generated_glue_eq_model]
+    unfold RowGlue.fromBytes RowGlue.callDecoder RowGlue.rowNew
+    rw [row_roundtrip ts vs r h hr]
+
+/-- Non-vacuity of the dict path: a dictionary in another order than the fields, with a missing and a surplus key; a
+subclass instance; a dictionary given to a class whose `__new__` is `tuple`'s would be its keys (`tupleNew`). -/
+example :
+    (Gen.RowFns.row_new (some ["a", "b", "c"]) (.dict true [("c", .int 3), ("a", .int 1), ("z", .int 9)])).toOption = some [.int 1, .none, .int 3] ∧
+    (Gen.RowFns.row_new (some ["a"]) (.dict false [("a", .str "x")])).toOption = some [.str "x"] ∧
+    (Gen.RowFns.row_new none (.dict true [])).toOption = none ∧
+    (Gen.RowFns.row_new none (.tuple [.int 1])).toOption = some [.int 1] ∧
+    RowGlue.tupleNew (.dict true [("a", .int 1)]) = [.str "a"] := by decide
 
 end C01
